@@ -3,7 +3,9 @@ package c10
 import (
 	"bytes"
 	"encoding/json"
+	"errors"
 	"fmt"
+	"io"
 	"os"
 	"sort"
 	"strings"
@@ -14,6 +16,9 @@ import (
 	"github.com/vektah/gqlparser/v2/formatter"
 	"github.com/vektah/gqlparser/v2/parser"
 	"pgregory.net/rapid"
+
+	"github.com/wundergraph/graphql-go-tools/execution/engine"
+	"github.com/wundergraph/graphql-go-tools/v2/pkg/engine/resolve"
 
 	"verif/harness/internal/fedgen"
 	"verif/harness/internal/kit"
@@ -29,7 +34,41 @@ type deferCase struct {
 	Seed   uint64         `json:"seed"`
 	Op     opgen.Op       `json:"op"`
 	Prios  [][]int        `json:"prios"`
+	// Hard, when set, adds a variant in which the Hard.K-th pre-fetch rate-limiter call after
+	// the first flush fails with a Go error (a hard fetch-phase failure of a deferred group)
+	// and every later Flush takes Hard.FlushMs milliseconds (a slow client).
+	Hard *hardFail `json:"hard,omitempty"`
 }
+
+type hardFail struct {
+	K       int   `json:"k"`
+	FlushMs int   `json:"flush_ms"`
+	Prio    []int `json:"prio"`
+}
+
+// failingLimiter is a resolve.RateLimiter that lets everything pass except one call.
+type failingLimiter struct {
+	mu      sync.Mutex
+	armed   func() bool
+	k, seen int
+	fired   bool
+}
+
+func (f *failingLimiter) RateLimitPreFetch(ctx *resolve.Context, info *resolve.FetchInfo, input json.RawMessage) (*resolve.RateLimitDeny, error) {
+	f.mu.Lock()
+	defer f.mu.Unlock()
+	if !f.armed() {
+		return nil, nil
+	}
+	f.seen++
+	if f.seen-1 == f.k {
+		f.fired = true
+		return nil, errors.New("rate limiter backend unavailable")
+	}
+	return nil, nil
+}
+
+func (f *failingLimiter) RenderResponseExtension(ctx *resolve.Context, out io.Writer) error { return nil }
 
 func allowFromEnv() map[string]bool {
 	m := map[string]bool{}
@@ -58,6 +97,10 @@ var deferPart = pbt.Part[deferCase]{Name: "defer-reconstruction-and-stream", Qui
 		n := rapid.IntRange(1, 3).Draw(t, "norders")
 		for i := 0; i < n; i++ {
 			c.Prios = append(c.Prios, rapid.SliceOfN(rapid.IntRange(0, 99), 8, 8).Draw(t, "prio"))
+		}
+		if rapid.IntRange(0, 3).Draw(t, "hard") == 0 {
+			c.Hard = &hardFail{K: rapid.IntRange(0, 3).Draw(t, "hardk"), FlushMs: rapid.SampledFrom([]int{0, 3, 12}).Draw(t, "flushms"),
+				Prio: rapid.SliceOfN(rapid.IntRange(0, 99), 8, 8).Draw(t, "hprio")}
 		}
 		return c
 	}}
@@ -364,10 +407,27 @@ func reconstruct(frames []string) (any, []string, streamInfo) {
 
 // runDeferred executes op; every subgraph request arriving after the first flush is
 // parked and released in priority order after a settle interval.
-func runDeferred(gw *kit.Gateway, op opgen.Op, prio []int) (*kit.Result, int) {
+func runDeferred(gw *kit.Gateway, op opgen.Op, prio []int, hard *hardFail) (*kit.Result, int, bool) {
 	rec := &kit.Recorder{}
 	var mu sync.Mutex
 	flushed := false
+	var opts []engine.ExecutionOptions
+	var limiter *failingLimiter
+	if hard != nil {
+		limiter = &failingLimiter{k: hard.K, armed: func() bool { mu.Lock(); defer mu.Unlock(); return flushed }}
+		opts = append(opts, engine.VerifWithResolveContext(func(c *resolve.Context) {
+			c.RateLimitOptions.Enable = true
+			c.SetRateLimiter(limiter)
+		}))
+	}
+	fired := func() bool {
+		if limiter == nil {
+			return false
+		}
+		limiter.mu.Lock()
+		defer limiter.mu.Unlock()
+		return limiter.fired
+	}
 	type parkedReq struct {
 		release chan struct{}
 		seq     int
@@ -378,6 +438,13 @@ func runDeferred(gw *kit.Gateway, op opgen.Op, prio []int) (*kit.Result, int) {
 		mu.Lock()
 		flushed = true
 		mu.Unlock()
+	}
+	if hard != nil && hard.FlushMs > 0 {
+		rec.DuringFlush = func(idx int) {
+			if idx > 0 {
+				time.Sleep(time.Duration(hard.FlushMs) * time.Millisecond)
+			}
+		}
 	}
 	seq := 0
 	maxParked := 0
@@ -401,12 +468,12 @@ func runDeferred(gw *kit.Gateway, op opgen.Op, prio []int) (*kit.Result, int) {
 	defer func() { gw.Transport.Intercept = nil }()
 	done := make(chan *kit.Result, 1)
 	gw.Transport.Reset()
-	go func() { done <- gw.ExecuteRec(op, rec) }()
+	go func() { done <- gw.ExecuteRec(op, rec, opts...) }()
 	settle := 4 * time.Millisecond
 	for {
 		select {
 		case r := <-done:
-			return r, maxParked
+			return r, maxParked, fired()
 		case <-arrivals:
 			// wait until no further request arrives for a settle interval, then release one
 		settleLoop:
@@ -414,7 +481,7 @@ func runDeferred(gw *kit.Gateway, op opgen.Op, prio []int) (*kit.Result, int) {
 				select {
 				case <-arrivals:
 				case r := <-done:
-					return r, maxParked
+					return r, maxParked, fired()
 				case <-time.After(settle):
 					break settleLoop
 				}
@@ -485,34 +552,34 @@ func checkDefer(c deferCase, o *pbt.Rec) pbt.Verdict {
 		o.Label("with-errors(stream-only)")
 	}
 	want := bm["data"]
-	variants := []struct {
+	type variant struct {
 		name string
 		op   opgen.Op
 		prio []int
-	}{{"ungated", c.Op, nil}}
+		hard *hardFail
+	}
+	variants := []variant{{"ungated", c.Op, nil, nil}}
 	for i, p := range c.Prios {
-		variants = append(variants, struct {
-			name string
-			op   opgen.Op
-			prio []int
-		}{fmt.Sprintf("order#%d", i), c.Op, p})
+		variants = append(variants, variant{fmt.Sprintf("order#%d", i), c.Op, p, nil})
 	}
 	if allFalse, _, ok := withoutDefer(c.Op, true); ok {
-		variants = append(variants, struct {
-			name string
-			op   opgen.Op
-			prio []int
-		}{"all-if-false", allFalse, nil})
+		variants = append(variants, variant{"all-if-false", allFalse, nil, nil})
+	}
+	if c.Hard != nil {
+		variants = append(variants, variant{"hard-failure", c.Op, c.Hard.Prio, c.Hard})
 	}
 	nontrivial := false
 	for _, vr := range variants {
-		res, maxParked := runDeferred(gw, vr.op, vr.prio)
+		res, maxParked, hardFired := runDeferred(gw, vr.op, vr.prio, vr.hard)
 		frames := append([]string{}, res.Frames...)
 		if res.Body != "" {
 			frames = append(frames, res.Body)
 		}
 		ctx := func() string {
 			var sb strings.Builder
+			if vr.hard != nil {
+				fmt.Fprintf(&sb, "\nhard failure: rate limiter call #%d after the first flush fails (fired=%v), later flushes take %d ms", vr.hard.K, hardFired, vr.hard.FlushMs)
+			}
 			fmt.Fprintf(&sb, "\nvariant: %s priorities %v\noperation: %s\nvariables: %s\nseed: %d\nnon-deferred data: %s\nframes:\n", vr.name, vr.prio, vr.op.Query, vr.op.VarsJSON(), c.Seed, ref.Canon(want))
 			for i, f := range frames {
 				fmt.Fprintf(&sb, "  [%d] %s\n", i, f)
@@ -527,7 +594,7 @@ func checkDefer(c deferCase, o *pbt.Rec) pbt.Verdict {
 			return pbt.Bad("Execute panicked on a deferred query: %s%s", res.Panic, ctx())
 		case res.TimedOut:
 			return pbt.Bad("the deferred stream did not terminate within the watchdog%s", ctx())
-		case res.Err != nil:
+		case res.Err != nil && !hardFired:
 			return pbt.Bad("a valid query with @defer fails although the same query without @defer succeeds: %v%s", res.Err, ctx())
 		}
 		for _, r := range res.Requests {
@@ -536,6 +603,16 @@ func checkDefer(c deferCase, o *pbt.Rec) pbt.Verdict {
 			}
 		}
 		got, perrs, info := reconstruct(frames)
+		if hardFired {
+			// a hard fetch-phase failure of one deferred group: what it delivers instead of the
+			// group's data is not pinned by the property (no reconstruction check); the stream
+			// protocol is: whole frames one at a time, every announced id completed exactly once,
+			// hasNext false on the last frame only (holds on the unchanged tree in every case seen)
+			o.Label("hard-failure-fired")
+			if res.Err != nil {
+				o.Label("hard-failure-fired:execute-returns-error")
+			}
+		}
 		if len(perrs) > 0 {
 			return pbt.Bad("stream is not well-formed: %s%s", strings.Join(perrs, "; "), ctx())
 		}
@@ -544,7 +621,7 @@ func checkDefer(c deferCase, o *pbt.Rec) pbt.Verdict {
 				return pbt.Bad("writer calls overlapped (frames may interleave)%s", ctx())
 			}
 			if len(res.Frames) > 0 {
-				if res.Rec.Completes != 1 {
+				if res.Rec.Completes != 1 && !(hardFired && res.Rec.Completes == 0) {
 					return pbt.Bad("Complete() was called %d times on a flushed stream%s", res.Rec.Completes, ctx())
 				}
 				if len(res.Rec.AfterDone) > 0 {
@@ -555,7 +632,7 @@ func checkDefer(c deferCase, o *pbt.Rec) pbt.Verdict {
 				}
 			}
 		}
-		if len(refRes.Errors) == 0 && !info.hadErrors {
+		if len(refRes.Errors) == 0 && !info.hadErrors && !hardFired {
 			if !ref.Equal(got, want) {
 				return pbt.Bad("initial payload + incremental payloads do not reconstruct the data of the query without @defer\n got:  %s\n want: %s%s", ref.Canon(got), ref.Canon(want), ctx())
 			}
